@@ -138,6 +138,13 @@ Theorem c15_mutes_unknown_name tz m names now :
   ~ all_known m names -> mutes_names tz m names now = Err "unknown-interval".
 Proof. exact (mutes_names_unknown tz m names now). Qed.
 
+(* the hypothesis `all_known` of the theorems above is what config.Load guarantees: an accepted configuration
+   defines every interval name that any route uses (and the root route uses none) *)
+Theorem c15_accepted_config_names_known (m : intervals) root_used routes_used :
+  cfg_names_ok (map fst m) root_used routes_used = true ->
+  root_used = [] /\ forall names, In names routes_used -> all_known m names.
+Proof. exact (cfg_names_ok_all_known m root_used routes_used). Qed.
+
 (* mute stage: alerts pass iff no mute interval contains now; marker := names of the containing intervals *)
 Theorem c15_mute_stage tz m route gkey mute active now :
   all_known m mute ->
@@ -173,6 +180,14 @@ Theorem c15_gating tz m route gkey mute active now mk0 :
     (blocked_active -> mk = active) /\
     (~ blocked_active -> forall n, In n mk <-> muted_by tz m mute now n).
 Proof. exact (gating tz m route gkey mute active now mk0). Qed.
+
+(* ... and over time: for EVERY sequence of flush (tick) instants of a group, every flush obeys the gating
+   statement at its own instant, independently of what earlier flushes left in the marker *)
+Theorem c15_every_flush_gated tz m route gkey mute active :
+  all_known m mute -> all_known m active ->
+  forall nows marker,
+    Forall2 (flush_ok tz m mute active) nows (flush_seq tz m route gkey mute active marker nows).
+Proof. exact (flush_seq_gated tz m route gkey mute active). Qed.
 
 (* ================= non-vacuity ================= *)
 
@@ -221,7 +236,13 @@ Example c15_ex_gating_runs :
               None = (false, None, Some ["offhours"; "weekends"])                 (* Saturday 21:00, no active list *).
 Proof. vm_compute. repeat split; reflexivity. Qed.
 
+Example c15_ex_flush_sequence :   (* ticks every minute across Thu 09:00 Berlin: muted, muted, then notifying *)
+  flush_seq ex_tz ex_m "r" "g" ["offhours"] [] None [1709193600 - 120; 1709193600 - 60; 1709193600; 1709193600 + 60]
+  = [(false, None, Some ["offhours"]); (false, None, Some ["offhours"]); (true, None, Some []); (true, None, Some [])].
+Proof. vm_compute. reflexivity. Qed.
+
 Print Assumptions c15_civil_roundtrip_days.
 Print Assumptions c15_civil_step.
 Print Assumptions c15_contains_spec.
 Print Assumptions c15_gating.
+Print Assumptions c15_every_flush_gated.
